@@ -1,7 +1,7 @@
 (* MulProofs5.v — C02, part 5: the regime dispatch, mac3 by induction on the fuel, mul3 and the
    public BigUint / BigInt multiplication forms. *)
 From BigNum Require Import Base BaseLemmas X86 AddSub AddSubProofs ShiftCore ShiftCoreProofs
-  MulToomDeps Mul SpecMul MulProofs MulProofs2 MulProofs3 MulProofs4.
+  Mul SpecMul MulProofs MulProofs2 MulProofs3 MulProofs4.
 Open Scope Z_scope.
 
 (** * The regime dispatch on sorted operands *)
